@@ -127,6 +127,50 @@ def record_run(make_solver, system, solver_name, cwu, nsteps, faults=None, solve
     return run
 
 
+def extract_verdicts(stdout):
+    """the value printed by PrintT(<<"VERDICTS", ...>>) in a trace-validation run"""
+    i = stdout.find('"VERDICTS"')
+    if i < 0:
+        raise tlc.MachineryError("no VERDICTS line in TLC output\n" + stdout[-2000:])
+    start = stdout.rfind("<<", 0, i)
+    depth = 0
+    j = start
+    while j < len(stdout):
+        if stdout.startswith("<<", j):
+            depth += 1
+            j += 2
+            continue
+        if stdout.startswith(">>", j):
+            depth -= 1
+            j += 2
+            if depth == 0:
+                break
+            continue
+        j += 1
+    return tlaval.parse_value(stdout[start:j])[1]
+
+
+def batch_validate(ctx, module, records, consts, tag):
+    """records: list of dicts with an 'id'; they are written as ndjson and checked one by one by the trace mode
+    of spec/<module>.tla.  Returns {id: clause} of the rejected records and the TLC result."""
+    path = os.path.join(ctx.scratch, f"{tag}.ndjson")
+    with open(path, "w") as f:
+        for r in records:
+            f.write(json.dumps(r) + "\n")
+    cfg = os.path.join(ctx.scratch, f"{tag}.cfg")
+    with open(cfg, "w") as f:
+        f.write("SPECIFICATION Spec\nCONSTANTS\n" + "".join(f"  {k} = {v}\n" for k, v in consts.items()) + "CHECK_DEADLOCK FALSE\n")
+    r = tlc.run_tlc(module, cfg, scratch=ctx.scratch, workers=1, env={"TRACE_FILE": path}, timeout=3000, deadlock_off=False)
+    if r.error or r.violated:
+        raise tlc.MachineryError(f"{module} trace validation failed to run: {r.error or r.violated}\n{r.stdout[-2500:]}")
+    if r.distinct < len(records) + 1:
+        raise tlc.MachineryError(f"{module} trace validation consumed {r.distinct} states for {len(records)} records")
+    out = {}
+    for v in extract_verdicts(r.stdout):
+        out.setdefault(v["id"], v["clause"])
+    return out, r
+
+
 def validate_traces(ctx, runs, tag="solverrun"):
     """runs: list of (tid, Run).  Returns dict tid -> (line, clause) for rejected runs."""
     path = os.path.join(ctx.scratch, f"{tag}.ndjson")
